@@ -136,4 +136,46 @@ example : shr_large_ref 64 64 [1, 2, 3, 4] 70 = some (shrLargeRef 64 [1, 2, 3, 4
     shr_large_ref 64 64 [1, 2, 3] (2 ^ 64 - 1) = some (.small 0) := by
   refine ⟨by decide, by decide, by decide, by decide⟩
 
+-- ---------------------------------------------------------------- round 6: `shl_dword` itself (inline test + arm selection)
+
+/-- **`shift_ops::repr::shl_dword`** (the whole function: the inline test `rhs <= dword.leading_zeros() as usize`, the inline shift,
+    the `dword == 1` test and the two spilled arms) as regenerated = the hand model's `shlDword`, for every non-zero double word and
+    every count: inside the inline range the checked `dword << rhs` neither exceeds the shift width nor loses a bit -/
+theorem gen_shl_dword_repr (W U d n : Nat) (hW : 1 ≤ W) (h32 : W ≤ 2 ^ 32) (hd0 : d ≠ 0) (hd : d < 2 ^ (2 * W))
+    (hU : n / W + 3 < 2 ^ U) (h2W : 2 * W < 2 ^ U) :
+    shl_dword_repr W U d n = some (shlDword W d n) := by
+  have hbl : bitLenNat d ≤ 2 * W := bitLenNat_le d (2 * W) hd
+  have hb1 : 1 ≤ bitLenNat d := by
+    unfold bitLenNat; rw [if_neg hd0]; omega
+  have hlz : MachInt.cast U (MachInt.leading_zeros (2 * W) d) = 2 * W - bitLenNat d := by
+    unfold MachInt.cast MachInt.leading_zeros
+    rw [Props.GenMath.bitLength_eq]
+    exact Nat.mod_eq_of_lt (by omega)
+  unfold shl_dword_repr
+  rw [hlz]
+  by_cases hsp : n ≤ 2 * W - bitLenNat d
+  · have hn : n < 2 * W := by omega
+    have hlt : d * 2 ^ n < 2 ^ (2 * W) := by
+      have h1 := (bitLenNat_spec d).1
+      calc d * 2 ^ n < 2 ^ bitLenNat d * 2 ^ n := Nat.mul_lt_mul_of_pos_right h1 (Nat.two_pow_pos n)
+        _ = 2 ^ (bitLenNat d + n) := (Nat.pow_add 2 _ _).symm
+        _ ≤ 2 ^ (2 * W) := Nat.pow_le_pow_right (by decide) (by omega)
+    simp only [hsp, decide_true, if_true, MachInt.shl, hn, Nat.mod_eq_of_lt hlt, bind, Option.bind, pure, shlDword]
+  · have h := gen_shl_dword_spilled_arms W U d n hW h32 hd hU hsp
+    simp only [hsp, decide_false, Bool.false_eq_true, if_false]
+    by_cases h1 : d = 1
+    · rw [if_pos h1] at h
+      simp only [h1, beq_self_eq_true, if_true, bind, Option.bind, pure]
+      rw [h1] at h
+      exact h
+    · rw [if_neg h1] at h
+      have hb : (d == 1) = false := by simpa using h1
+      simp only [hb, Bool.false_eq_true, if_false, bind, Option.bind, pure, h]
+
+-- non-vacuity (64-bit words): the last inline count, the first spilled count, the `dword == 1` arm
+example : shl_dword_repr 64 64 5 125 = some (.small (5 * 2 ^ 125)) ∧
+    shl_dword_repr 64 64 5 126 = some (shlDword 64 5 126) ∧ shl_dword_repr 64 64 1 128 = some (.large [0, 0, 1]) ∧
+    shl_dword_repr 64 64 1 127 = some (.small (2 ^ 127)) := by
+  refine ⟨by decide, by decide, by decide, by decide⟩
+
 end Dashu.Props.GenShiftHeap
